@@ -143,7 +143,7 @@ pub fn record(a: &Args) -> Report {
       let main = by_group(1);
       let mut sel: Vec<usize> = Vec::new();
       let mut forge: Option<(usize, u32)> = None;
-      let style = if prop == "C01" { k % 4 } else { 4 + k % 6 };
+      let style = if prop == "C01" { [0, 1, 2, 3, 10, 11][(k % 6) as usize] } else { 4 + k % 6 };
       match style {
         0 => {
           // exactly t distinct, shuffled
@@ -176,6 +176,24 @@ pub fn record(a: &Args) -> Report {
           // surplus: every report, random order
           sel = main.clone();
           sel.shuffle(&mut rng);
+        }
+        10 => {
+          // the t-th distinct report arrives arbitrarily late: one report repeated 2t+3 times, then
+          // the other t-1 (a recovery that inspects only a bounded prefix of the list never sees them)
+          let mut m = main.clone();
+          m.shuffle(&mut rng);
+          for _ in 0..2 * t0 as usize + 3 {
+            sel.push(m[0]);
+          }
+          sel.extend(&m[1..(t0 as usize).max(1)]);
+        }
+        11 => {
+          // every report three times in a row, t distinct in all: m0 m0 m0 m1 m1 m1 ...
+          let mut m = main.clone();
+          m.shuffle(&mut rng);
+          for c in &m[..t0 as usize] {
+            sel.extend([*c, *c, *c]);
+          }
         }
         4 => {
           // t-1 distinct padded with duplicates
